@@ -211,19 +211,19 @@ def input_gates(P, rep, rule="G3.input"):
 def controlling(F):
     """block -> frozenset of (branch block, successor index) it is transitively control dependent on"""
     cd = F.control_deps()
-    memo = {}
-
-    def closure(b, stack=()):
-        if b in memo:
-            return memo[b]
-        out = set()
-        for (a, idx) in cd.get(b, ()):
-            out.add((a, idx))
-            if a != b and a not in stack:
-                out |= closure(a, stack + (b,))
-        memo[b] = out
-        return out
-    return {b["id"]: frozenset(closure(b["id"])) for b in F.cfg["blocks"]}
+    ids = [b["id"] for b in F.cfg["blocks"]]
+    clo = {b: set(cd.get(b, ())) for b in ids}
+    changed = True
+    while changed:
+        changed = False
+        for b in ids:
+            add = set()
+            for (a, idx) in clo[b]:
+                add |= clo.get(a, set())
+            if not add <= clo[b]:
+                clo[b] |= add
+                changed = True
+    return {b: frozenset(v) for b, v in clo.items()}
 
 
 def branch_info(P, F):
